@@ -332,6 +332,49 @@ def check_endian(res, facts):
             names += [t["f"].get("name") for _, t in c.calls()]
         if le in names and ("reverse" in names or "rev" in names):
             rule.ok(key, "%s after reversal" % le, fn.loc)
+        elif be == "to_bytes_be" and "to_be_bytes" in names:
+            # an independent big-endian loop: decide it directly -- byte p of the output holds integer bits
+            # 8*(8N-1-p) .. +7 for every limb content (one abstract run per N)
+            from arklib import bvinterp as BI
+
+            def closure_of(t, fn=fn):
+                cty = [a for a in (t["f"].get("targs") or []) if a.startswith("{closure@")]
+                cands = [c for c in facts.closures_of(fn) if cty and cty[0] in (c.local_ty(1) or "")]
+                return cands[0] if len(cands) == 1 else None
+            verdict = None
+            for n in (1, 2, 3):
+                big = BI.Struct({0: BI.Slice([BI.BV.word(k) for k in range(n)])})
+                holder = {"self": big}
+                try:
+                    vals, end = BI.run(fn, {1: BI.Ref(holder, "self")}, params={"N": n}, max_steps=20000, closure_of=closure_of)
+                except BI.Stop as e:
+                    verdict = ("undecided", "N = %d: %s" % (n, e))
+                    break
+                out = vals.get(0)
+                items = out.items if isinstance(out, BI.Slice) else None
+                if items is None or len(items) != 8 * n:
+                    verdict = ("violation", "N = %d: %s bytes produced, expected %d" % (n, len(items) if items is not None else "no", 8 * n))
+                    break
+                for p_, v in enumerate(items):
+                    if isinstance(v, int):
+                        v = BI.BV([0] * 64, v)
+                    lo = 8 * (8 * n - 1 - p_)
+                    for j in range(64):
+                        want = (1 << (lo + j)) if j < 8 else 0
+                        row, c = v.bit(j)
+                        if row != want or c:
+                            verdict = ("violation", "N = %d: bit %d of output byte %d is %s, expected %s" % (n, j, p_, _srcname(row, c), ("integer bit %d" % (lo + j)) if want else "0"))
+                            break
+                    if verdict:
+                        break
+                if verdict:
+                    break
+            if verdict is None:
+                rule.ok(key, "output byte p holds integer bits 8(8N-1-p)..+7 for all limb contents, N in 1..3 [abstract interpretation]", fn.loc)
+            elif verdict[0] == "violation":
+                rule.bad(key, verdict[1] + ": not the big-endian byte string of the integer", fn.loc)
+            else:
+                rule.undecided(key, "abstract interpretation stopped (%s)" % verdict[1], fn.loc)
         elif "rev" in names or "reverse" in names or "to_be_bytes" in names:
             rule.undecided(key, "not defined through %s; an independent big-endian loop is index arithmetic on run-time lengths (calls: %s)" % (le, sorted(set(n for n in names if n))[:8]), fn.loc)
         else:
@@ -411,9 +454,15 @@ def check_shifts(res, facts, tier):
                 if amt is not None:
                     args[2] = amt
 
-                def model(nm, argv, t, n=n):
+                def model(nm, argv, t, n=n, f=f):
                     if nm == "from" and len(argv) == 1 and isinstance(argv[0], int):
                         return BI.Struct({0: BI.Slice([argv[0]] + [0] * (n - 1))})
+                    # one shift delegating to a sibling (muln -> <<=, ...): interpret the sibling's body in place
+                    sib = targets.get(nm)
+                    if sib is not None and sib is not f and len(argv) == sib.d["argc"] and (t["f"].get("self") or "").startswith(BIG):
+                        a2 = {i + 1: v for i, v in enumerate(argv)}
+                        vals2, _ = BI.run(sib, a2, params={"N": n}, call_model=model, max_steps=20000)
+                        return vals2.get(0, ())
                     return NotImplemented
                 try:
                     vals, end = BI.run(f, args, params={"N": n}, call_model=model, max_steps=20000)
